@@ -194,18 +194,35 @@ let dump (s : state) (out : exn option) : Stdlib.String.t =
   ^ " | next=" ^ string_of_int n ^ " pol=" ^ (match s.policy with PolDefault -> "D" | PolEdif -> "E")
   ^ " | " ^ String.concat " | " objs
 
+(* ---- cross-check of extraction + this file's glue against vm_compute (harness/coq_eval.py) ----
+   "digest" summarises the history since the last "reset" twice: by the extracted [ir_case] on the list
+   of parsed ops (only the op parser is glue), and by this driver's own loop (the states it went through
+   are kept in [trace]; at "digest" their event logs are folded with the extracted [ev_more] and the
+   current state is hashed by the extracted [state_digest]; nothing is computed for runs that never ask). *)
+let sn x = string_of_int (int_of_n x)
+let scodes l = if l = [] then "-" else String.concat "," (List.map sn l)
+
 let () =
   let st = ref init in
+  let trace = ref [] in
+  let hist = ref [] in
   try
     while true do
       let line = input_line stdin in
-      if String.trim line = "reset" then (st := init; print_endline "reset")
+      if String.trim line = "reset" then (st := init; trace := []; hist := []; print_endline "reset")
       else if String.trim line = "" then ()
+      else if String.trim line = "digest" then begin
+        let ((outs, h), d) = ir_case (List.rev !hist) in
+        let evh = List.fold_left (fun a (s1, out) -> ev_more a s1 out) ev0 (List.rev !trace) in
+        print_endline ("digest " ^ scodes outs ^ " " ^ sn h ^ " " ^ sn d ^ " " ^ sn evh ^ " " ^ sn (state_digest !st))
+      end
       else begin
         let o = parse_op line in
+        hist := o :: !hist;
         let s0 = { !st with log = [] } in
         let (s1, out) = step s0 o in
         st := s1;
+        trace := (s1, out) :: !trace;
         print_endline (dump s1 out)
       end
     done
